@@ -4,3 +4,4 @@ import Votca.Props.C13
 import Votca.Props.C20
 import Votca.Props.C20Findings
 import Votca.Props.C14
+import Votca.Props.C02
